@@ -109,4 +109,16 @@ def decodeVec (s : List UInt8) : Res (Nat × List UInt8) :=
     let (okk, out) ← decVecGo 0 0 [] s
     pure (if okk then outLen else 0, out)
 
+/-- the text a C-string overload sees: everything before the first NUL (`::strlen`) -/
+def cstr (s : List UInt8) : List UInt8 := s.takeWhile (· ≠ 0)
+
+/-- `DecodeLength(const char*)` / `Decode(const char*, void*, size_t)` -/
+def decodeLengthZ (s : List UInt8) : Nat := decodeLength (cstr s)
+def decodeBufZ (s : List UInt8) (cap : Nat) : Res (Nat × List UInt8) := decodeBuf (cstr s) cap
+
+/-- `Decode(const std::string&, std::vector<uint8_t>&)` on a vector already holding `pre`: bytes are appended -/
+def decodeVecOnto (pre s : List UInt8) : Res (Nat × List UInt8) := do
+  let (r, o) ← decodeVec s
+  pure (r, pre ++ o)
+
 end Tbox.C19.B64
